@@ -646,6 +646,15 @@ func (tr *fnTrans) specCall(x ECall, env *specEnv) (Term, error) {
 		tn := "T_" + args[0].T.Elem.Tag()
 		tr.touchHeap(tn, SBool, false)
 		return T(sel(env.heapTerm(tn), args[0].S), SBool), nil
+	case "unboxStr": // the string held by an interface value (boxing of a Go string into an opaque interface sort)
+		if args[0].T == nil {
+			return Term{}, fmt.Errorf("unboxStr of untyped value")
+		}
+		tr.v.declareBox(args[0].T, SStr, "string")
+		if args[0].T == SStr {
+			return args[0], nil
+		}
+		return T(app(fmt.Sprintf("unbox_%s_string", args[0].T.Name), args[0].S), SStr), nil
 	case "deref": // contents of the cell a pointer refers to
 		if args[0].T == nil || args[0].T.Name != "Int" || args[0].T.Elem == nil {
 			return Term{}, fmt.Errorf("deref of non-pointer")
